@@ -115,6 +115,13 @@ func (n *JoinNode) Delete(src int, d edge.DeleteGroupMessage) error {
 }
 
 func (n *JoinNode) Finish() error {
+	// No more points are coming, cached specific points cannot get a match anymore.
+	for _, buf := range n.specificGroupsBuffer {
+		for i := 0; i < buf.Len; i++ {
+			n.sendSpecificPoint(buf.Peek(i))
+		}
+		buf.Dequeue(buf.Len)
+	}
 	// No more points are coming signal all groups to finish up.
 	for _, group := range n.groups {
 		if err := group.Finish(); err != nil {
